@@ -143,6 +143,15 @@ ClauseRefuse(c, calls, authz, o) ==
 \* -- clause: an authenticator is consulted only if it is declared for the operation and registered
 CallOK(c, scheme) == ~NoSecurity(c) /\ InSomeAlt(c, scheme) /\ Avail(c, scheme)
 
+\* -- clause: every consultation is made on behalf of one alternative of the *requested operation*, with the scopes
+\*            that alternative declares for the scheme (RequiredScopes), and an alternative consults a scheme at most once:
+\*            the consultations of scheme s with scopes v are no more than the alternatives declaring s with exactly v.
+ScopesOf(alt, s)  == alt.scopes[CHOOSE k \in DOMAIN alt.schemes : alt.schemes[k] = s]
+Capacity(c, s, v) == Cardinality({ i \in DOMAIN c.alts : s \in Range(c.alts[i].schemes) /\ ScopesOf(c.alts[i], s) = v })
+CallScopesOK(c, calls, cscopes) ==
+  \A n \in DOMAIN calls :
+     Cardinality({ m \in DOMAIN calls : calls[m] = calls[n] /\ cscopes[m] = cscopes[n] }) <= Capacity(c, calls[n], cscopes[n])
+
 DoneOK(c, calls, authz, o) ==
   /\ ClauseNoSecurity(c, calls, authz, o)
   /\ ClauseAdmit(c, calls, authz, o)
@@ -172,7 +181,7 @@ DoneWhy(c, calls, authz, o) ==
 (*  routeAuth  route.Authenticator: 0 = nil, else index of the alternative  *)
 (*  anon       index of the anonymous alternative seen (0 = none)           *)
 (*  ret        what RouteAuthenticators.Authenticate returned               *)
-(*  calls, authz, o   the observation                                       *)
+(*  calls, cscopes, authz, o   the observation (cscopes[n] = RequiredScopes handed to call n) *)
 
 NoObs == [status |-> 0, err |-> [code |-> 0, msg |-> ""], ran |-> FALSE, bind |-> FALSE,
           consumer_calls |-> 0, principal |-> <<>>, scopes |-> <<>>]
@@ -180,7 +189,7 @@ NoObs == [status |-> 0, err |-> [code |-> 0, msg |-> ""], ran |-> FALSE, bind |-
 EvInit == [pc |-> "secure", ai |-> 1, todo |-> {}, lastResult |-> <<>>, lastError |-> <<>>,
            routeAuth |-> 0, anon |-> 0,
            ret |-> [applies |-> FALSE, usr |-> <<>>, err |-> <<>>],
-           calls |-> <<>>, authz |-> <<>>, o |-> NoObs]
+           calls |-> <<>>, cscopes |-> <<>>, authz |-> <<>>, o |-> NoObs]
 
 \* newSecureAPI is only wrapped around operations with requirements (untyped/api.go) and
 \* Authorize returns at once when the route has no authenticators.
@@ -217,7 +226,8 @@ SchemeStep(c, e, s) ==
   THEN IF SkipsUnregistered
        THEN [e EXCEPT !.todo = e.todo \ {s}]                        \* `if authenticator, ok := ...; ok {` (D14)
        ELSE AfterAlt(e, FALSE, <<>>, <<>>)                          \* normative: alternative not applicable
-  ELSE LET e1 == [e EXCEPT !.calls = Append(e.calls, s)]
+  ELSE LET e1 == [e EXCEPT !.calls = Append(e.calls, s),
+                           !.cscopes = Append(e.cscopes, ScopesOf(c.alts[e.ai], s))]   \* RequiredScopes: ra.Scopes[scheme]
            k  == c.out[s].k
        IN CASE k = "na"   -> AfterAlt(e1, FALSE, <<>>, <<>>)                                      \* if !applies { return false, nil, nil }
             [] k = "rej"  -> AfterAlt([e1 EXCEPT !.routeAuth = e.ai], TRUE, <<>>, <<s>>)          \* if err != nil { route.Authenticator = ra; return true, nil, err }
